@@ -196,16 +196,17 @@ CHECKS = {
              "outcome of every random draw): if the schema is hereditarily satisfiable within the generator's reach "
              "(sat: fixed values conform, bounds ordered, lengths compatible incl. bounds beyond the generator defaults "
              "and the ellipsis-list/len padding, substr over the alphabet, every member the generator may visit "
-             "satisfiable) the model generator returns a value and the validator accepts it with zero errors. The "
+             "satisfiable; patterns: the decidable re_supported of theories/ReSupported.v, for which totality of the regex "
+             "generator is proved and soundness comes from C09) the model generator returns a value and the "
+             "validator accepts it with zero errors. The "
              "property's wider quantifier (any schema admitting some value) is stated and REFUTED for the faithful "
-             "model (gen_sound_full_refuted; witnesses for F24, F07, F06 replay on /repo) - partial in that sense; "
-             "patterns rely on C09's regen_validates and a totality premise re_total. Tie: the real generator under "
+             "model (gen_sound_full_refuted: F24; F29 witness) - partial in that sense. Tie: the real generator under "
              "tape policies all-min/all-max/alternating/random with a fixed world vs the model on the same tape (value, "
              "exception class, number of draws); tables of generator constants regenerated every run; oracle on /repo: "
              "validate(S, fake(S)) for satisfiable S under those tapes and under the real seeded RNG.",
-        note=COMMON_NOTE + "Open known findings: F06 (precision grid with a bound), F07 (empty alphabet), F23 (uniform "
-             "overflow; outside the tape contract, seen only with the real RNG), F24 (unsatisfiable member may be "
-             "visited). F04, F05 repaired by fix: commits.",
+        note=COMMON_NOTE + "Open known findings: F23 (uniform overflow; outside the tape contract, seen only with the "
+             "real RNG), F24 (unsatisfiable member may be visited), F29 (scaled bound overflows). F04, F05, F06, F07 "
+             "repaired by fix: commits.",
         technique="Coq proof (returns-predicate over the tape monad, nested induction) + refutation witnesses by vm_compute + tape-scripted vm_compute correspondence + direct oracle",
         design="6 C01"),
     "C09": dict(
